@@ -107,6 +107,8 @@ type GenDoc struct {
 	Built   *Built
 	Models  []DocModel // logical document after each revision
 	Commits [][]byte   // bytes appended by each revision
+	PageContent [][]int // after the last revision: content stream objects of each page, in order
+	Catalog     int
 }
 
 func eolOf(i int) string {
@@ -174,6 +176,11 @@ func Generate(spec DocSpec) *GenDoc { return GenerateHooked(spec, nil, nil) }
 
 // GenerateHooked is Generate with fault-injection hooks on the writer.
 func GenerateHooked(spec DocSpec, hook func(kind string, num int, o Obj) Obj, prevHook func(rev, xrefOff, prev int) int) *GenDoc {
+	return GenerateWith(spec, hook, prevHook, nil)
+}
+
+// GenerateWith additionally takes a hook on cross-reference offsets.
+func GenerateWith(spec DocSpec, hook func(kind string, num int, o Obj) Obj, prevHook func(rev, xrefOff, prev int) int, offsetHook func(rev, num, off int) int) *GenDoc {
 	r := sim.NewRand(spec.Seed)
 	st := Style{EOL: eolOf(spec.EOL), Tight: spec.Tight, Loose: spec.Loose, Comments: spec.Comments, HexPct: spec.HexPct,
 		NameEsc: spec.NameEsc, DictBreak: spec.DictBreak, OctalPct: 50}
@@ -200,6 +207,7 @@ func GenerateHooked(spec DocSpec, hook func(kind string, num int, o Obj) Obj, pr
 	d.w = NewWriter(st, r.Split("writer"), Ref{d.catalog, 0}, &infoRef, maxObjs)
 	d.w.Hook = hook
 	d.w.PrevHook = prevHook
+	d.w.OffsetHook = offsetHook
 
 	out := &GenDoc{Spec: spec}
 	set := map[int]Obj{}
@@ -218,6 +226,10 @@ func GenerateHooked(spec DocSpec, hook func(kind string, num int, o Obj) Obj, pr
 		out.Models = append(out.Models, d.snapshot())
 	}
 	out.Built = d.w.Built()
+	for _, p := range d.pages {
+		out.PageContent = append(out.PageContent, append([]int{}, p.content...))
+	}
+	out.Catalog = d.catalog
 	return out
 }
 
